@@ -3,12 +3,52 @@ from props_common import *
 PROP = dict(
     title="Storage reads honour the read contract for every offset and length",
     family="sread", harness="sread", run_vo="Run/Sread.vo",
-    theorems=["C36_exact", "C36_zerofill", "C36_missing", "C36_size_alloc", "C36_contract_exact_ok", "C36_contract_exact_err", "C36_contract_zerofill_ok", "C36_contract_zerofill_err"],
-    open_statements=[],
+    theorems=["C36_exact", "C36_zerofill", "C36_missing", "C36_size_alloc",
+              "C36_contract_exact_ok", "C36_contract_exact_err", "C36_contract_zerofill_ok", "C36_contract_zerofill_err",
+              "C36_copy_zero_fill", "C36_copy_zero_fill_succeeds", "C36_loaded_bytes", "C36_ccp", "C36_bldd", "C36_csiz_bsiz",
+              "C36_ldc_contract", "C36_ldc_blob", "C36_ldc_loaded_region", "C36_ldc_memory", "C36_padding_zero_when_value_ends",
+              "C36_ldc_strict_padding_refuted"],
+    open_statements=[
+        "ldc_contract_padding_is_zero (Mem/ReadModel.v): 'LDC modes 0/1 leave zeros between $rC and the word-padded length' is REFUTED "
+        "(C36_ldc_strict_padding_refuted): the padding holds the value's following bytes when $rC % 8 != 0 and the value continues; the "
+        "implementation behaves the same (oracle class ldc-mode{0,1}-unaligned-length-padding-holds-following-value-bytes-not-zeros). "
+        "Proved instead: region = value[off .. off+padded] ++ zeros (C36_ldc_loaded_region) and zero padding when the value ends (C36_padding_zero_when_value_ends)",
+        "update_code_size (the $fp->codesize bookkeeping of LDC) is modelled and tied by correspondence; the LDC theorems expose it as the last step "
+        "without characterising its bytes",
+        "gas charging, the contract-in-inputs check and the predicate-context refusal are outside the model (the harness runs with maximal gas and the AttemptContinue verifier)",
+    ],
     translators=[],
-    trusted_base=[],
-    assumptions=[],
-    rule="",
-    level_text="", level_note="", technique="", design_ref="6/C36",
+    trusted_base=[
+        "hand-written L1 model Mem/ReadModel.v of the three StorageRead impls in fuel-vm/src/storage/memory.rs (identical bodies), of "
+        "copy_from_storage_zero_fill (interpreter/memory.rs) and of code_copy / blob_load_data / load_contract_code / load_blob_code / load_memory_code / "
+        "code_size / blob_size (interpreter/blockchain.rs, blob.rs); tied by the correspondence run only",
+        "the C23 memory model (Mem/MemModel.v) and its refinement theorems, on which the instruction theorems are stated",
+        "usize is 64 bits; a stored value is shorter than 2^64 - 1 bytes (premise of C36_exact)",
+        "CallFrame::code_size_offset() = 576 and padded_len_word are transcribed by hand (exercised by every successful LDC case)",
+        "the bare Interpreter used by the harness has Context::NotInitialized, which counts as internal: the external (script) variant of LDC, "
+        "which skips the code-size update, is in the model (v_internal = false) but is not exercised by the correspondence run",
+    ],
+    assumptions=[
+        "C36_exact: the stored value is shorter than 2^64 - 1 bytes",
+        "instruction theorems: the memory satisfies the representation invariant of C23 (true of every reachable MemoryInstance: C23_invariant); "
+        "they describe successful executions; failures leave the model state unchanged by construction",
+    ],
+    rule=("storage level: value lengths {0,1,2,3,8,32,33} (17 lengths in thorough), every offset and buffer length within +-2 of the value length plus 0, "
+          "offset+buffer = length-1/length/length+1, offsets 2^32-1, 2^32, usize::MAX-1, usize::MAX, missing keys; for the three MemoryStorage byte tables "
+          "(contract code, contract state, blobs) through the real StorageRead/StorageSize impls; buffers pre-filled with a recognisable pattern. "
+          "Instruction level: CCP, BLDD, LDC modes 0/1/2 (+ invalid mode), CSIZ, BSIZ executed by Interpreter::instruction on a real interpreter with "
+          "boundary offsets/lengths around the value length and word boundaries, 2^32, u64::MAX, destinations at ownership/accessibility boundaries, "
+          "missing ids, $ssp != $sp, stack meeting the heap, contract_max_size boundary, several $fp; observed: panic reason or registers + full accessible memory. "
+          "Each case is compared with the Gallina L1 model and with direct slice arithmetic written in the harness. distinct = distinct input; "
+          "non-trivial = stored value present and non-empty buffer / successful instruction"),
+    level_text=("Machine-checked proof (Coq) that the model of MemoryStorage's read_exact/read_zerofill/size/alloc equals the read contract for every value, offset "
+                "and buffer (offset == length allowed, offset > length refused, missing key reported, buffer untouched on failure), and that "
+                "copy_from_storage_zero_fill, CCP, BLDD and LDC (modes 0/1 from storage, mode 2 from memory) leave exactly value[off..off+n] followed by zeros in their destination and nothing "
+                "else changed (stated on the C23 memory refinement), with the register effects of LDC; the model is tied to the Rust code by a differential "
+                "run through the real StorageRead impls and a real Interpreter on every check"),
+    level_note=("Trusted: Coq kernel; hand-written L1 models tied by correspondence testing (testing, not proof); harness. The frame code-size "
+                "update is covered by correspondence only. The strict reading 'zero padding after $rC bytes' is refuted for LDC modes 0/1 (finding)."),
+    technique="Coq proof (list lemmas firstn/skipn/repeat + C23 refinement) + differential model/impl run + slice-arithmetic oracle",
+    design_ref="6/C36",
     quick_shards=8,
 )
